@@ -7,4 +7,5 @@ INVARIANT TwinInert
 INVARIANT ContentPrefixed
 INVARIANT NoHeaderSite
 INVARIANT IdsUnique
+INVARIANT LiteralUnreachable
 CHECK_DEADLOCK FALSE
